@@ -151,10 +151,16 @@ def run(ctx):
                 k = rng.randrange(1, w.opcount + 1)
                 for s_, (v, t) in zip(w.stores, saved0):      # the same store state as before the run above
                     s_.v, s_.t = v, t
+                # every third fault is not an Exception but a BaseException (SystemExit / a cancellation raised inside a store operation or call)
+                hard = rng.random() < 0.35
                 resf = w.run(output, fresh, workers=rng.choice([1, 3]), scheduler=rng.choice([None, "random"]),
-                             max_errors=rng.choice([1, 3, None]), fault_at=k)
+                             max_errors=rng.choice([1, 3, None]), fault_at=k, fault_hard=hard)
                 fault_monitor(ctx, w, output, list(w.log), k, stale)
-                ctx.count("fault_runs", resf[0])
+                ctx.count("fault_runs", resf[0] + (" (BaseException fault)" if hard else ""))
+                if w.fault_fired and resf[0] == "ok":
+                    ctx.fail("fault:run-succeeded", "a %s raised inside operation %d of the run (%s) and the run returned normally"
+                             % ("BaseException" if hard else "exception", k, " ".join(str(x) for x in w.log[k - 1][:2]) if k - 1 < len(w.log) else "?"),
+                             {"meta": w.meta, "output": output, "fault_at": k, "hard": hard, "log": [(a, b) for a, b, _ in w.log][:200]})
             ctx.case((wi, step, tuple(str(x) for x in w.sigma()), output, fresh), nontrivial=len(stale) > 0,
                      sample={"meta": w.meta, "stale": sorted(stale), "log": [(a, b) for a, b, _ in w.log][:40]} if wi == 2 and step == 1 else None)
             ctx.count("stale_count", len(stale))
